@@ -65,6 +65,18 @@ func c08Ship(x *Ctx) {
 // small for the rarer cells - followed by the usual random events.
 func c08HelloMatrix(x *Ctx) {
 	x.SigAdd("engine=ship-hello-matrix")
+	o, cell := helloMatrixOpts(x)
+	s := newShip1(x, o)
+	x.OnFinal(func() {
+		checkNoWedge(x)
+		x.NonTrivial()
+		x.SetSample(map[string]any{"engine": "ship-hello-matrix", "role": s.role, "hello_cell": cell})
+	})
+}
+
+// helloMatrixOpts builds the options of a hello-matrix run (shared with C04, which
+// judges the same runs by its state-graph oracle).
+func helloMatrixOpts(x *Ctx) (ship1Opts, string) {
 	o := c01Opts()
 	o.devRate = 0.3
 	o.maxEvents = 24
@@ -92,12 +104,7 @@ func c08HelloMatrix(x *Ctx) {
 		}
 		return "", "", false
 	}
-	s := newShip1(x, o)
-	x.OnFinal(func() {
-		checkNoWedge(x)
-		x.NonTrivial()
-		x.SetSample(map[string]any{"engine": "ship-hello-matrix", "role": s.role, "listen_state": target, "hello": map[string]any{"phase": phase, "waiting": w, "prolongationRequest": p}})
-	})
+	return o, fmt.Sprintf("state %d: phase=%q waiting=%d prolongationRequest=%d", target, phase, w, p)
 }
 
 // checkNoWedge: every delivery to the SHIP layer returned, and did so within
